@@ -301,7 +301,8 @@ func exhaustive(c *vlib.Ctx, b bnd, maxLen int) {
 		for _, v := range b.values[:2] {
 			alpha = append(alpha, "set:"+o+":"+v)
 		}
-		alpha = append(alpha, "def:"+o)
+		// a set to the very value the declaration has as default must still create the override
+		alpha = append(alpha, "set:"+o+":"+defVal, "def:"+o)
 	}
 	alpha = append(alpha, "call", "ret")
 	var rec func(h []string, depth int)
@@ -394,7 +395,7 @@ func replay(c *vlib.Ctx, w string) {
 func init() {
 	vlib.Register(&vlib.Check{
 		ID: "C25", Engine: "E3",
-		Rule:   "two options are defined through the Go API (verif/loc non-global, verif/glo Global, default 'd'); breadth-first search over histories of {config get, config set <value>, config default} for both options, the same statements inside an if/foreach block, `call` (enter a function defined for that site) and `ret`, call depth <= D, values V (quick D=3 V={a,b}; thorough D=3 V={a,b,c}); each history is rendered as a program (open calls are closed at the end, every open scope reads both options while unwinding = canonical state), run from a reset session through the session-level fork the interactive shell uses, and the printed values are compared with a frame model: a call starts without overrides and reads through to the session value or default, a non-global set/default in a call stays in that call (blocks share it), global options and session-level sets are seen everywhere; successors with a new canonical state are enqueued until a fixpoint; in addition EVERY well-formed history of at most L operations over {set a|b, default} x both options + call + ret is run without any state merging (quick L=5, thorough L=6), because a hidden per-scope copy is invisible in the canonical state until the shared value moves on; non-trivial = the history contains a set or default executed inside a call",
+		Rule:   "two options are defined through the Go API (verif/loc non-global, verif/glo Global, default 'd'); breadth-first search over histories of {config get, config set <value>, config default} for both options, the same statements inside an if/foreach block, `call` (enter a function defined for that site) and `ret`, call depth <= D, values V (quick D=3 V={a,b}; thorough D=3 V={a,b,c}); each history is rendered as a program (open calls are closed at the end, every open scope reads both options while unwinding = canonical state), run from a reset session through the session-level fork the interactive shell uses, and the printed values are compared with a frame model: a call starts without overrides and reads through to the session value or default, a non-global set/default in a call stays in that call (blocks share it), global options and session-level sets are seen everywhere; successors with a new canonical state are enqueued until a fixpoint; in addition EVERY well-formed history of at most L operations over {set a|b|d (d = the declared default), default} x both options + call + ret is run without any state merging (quick L=5, thorough L=6), because a hidden per-scope copy is invisible in the canonical state until the shared value moves on; non-trivial = the history contains a set or default executed inside a call",
 		Run:    run,
 		Replay: replay,
 		Assumptions: []string{
